@@ -4,15 +4,22 @@ import math
 import os
 import random
 import sys
+import zlib
 from fractions import Fraction as Fr
 
 sys.path.insert(0, os.path.dirname(os.path.abspath(__file__)))
 import common as C
 import solvers as S
+import loopmon as LM
 from common import f2h
 
 INF = float('inf')
 SOLVERS = ['panoc']
+COUNTS = {}
+
+
+def bump(k, n=1):
+    COUNTS[k] = COUNTS.get(k, 0) + n
 
 
 def gen_run(rng, solver=None, stop=None, **over):
@@ -71,6 +78,25 @@ def tolv(*mags):
     return 8 * S.EPS * m
 
 
+def nonfinite_cause(op, r, x_out, x_final):
+    """Why non-finite values were written back (see `monitor`)."""
+    evs = [pe for pe in (LM.parse_event(ev) for ev in r['events']) if pe]
+    fin = lambda vs: all(math.isfinite(a) for v in vs for a in (v if isinstance(v, list) else [v]))
+    if op.nat('nanat', 0) != 0 and any(not fin(pe[2]) for pe in evs if pe[0] in ('psi', 'psigradpsi')):
+        return 'nan_injected'
+    pts = {tuple(LM.bits(x_out)), tuple(LM.bits(x_final))}
+    for name, args, res in evs:
+        # the point argument: psi / psigradpsi / gradpsi / gradL: first vector; prox: the x argument
+        pt = args[1] if name == 'prox' else args[0]
+        if tuple(LM.bits(pt)) in pts and fin(args) and not fin(res):
+            return 'problem_function_nonfinite_at_finite_point'
+    if not all(math.isfinite(a) for a in x_final):
+        return 'solver iterated on from a non-finite point'
+    if not all(math.isfinite(a) for a in x_out):
+        return 'the step x̂ = x + p overflowed at a finite iterate with finite ∇ψ'
+    return 'non-finite ŷ / err_z at a finite returned x with finite problem answers'
+
+
 def monitor(op_line, out_line, st, parse=None):
     if out_line.startswith('exception') or out_line in ('bad-op', 'bad-direction'):
         return f'harness: {out_line[:100]}'
@@ -94,27 +120,31 @@ def monitor(op_line, out_line, st, parse=None):
         return None
     x, y, e = o['x'], o['y'], o['errz']
     ex = S.Exact(op)
-    # The finiteness / consistency clauses presuppose finite problem functions (DESIGN §6 C03,
-    # `x_out_finite_partial`): a NaN / inf returned by a problem oracle (NaN injection, overflow of a
-    # diverging run) is copied into x̂ / ŷ by construction.
-    nonfin = {'nan', '7ff0000000000000', 'fff0000000000000'}
-    oracle_nonfinite = any(ev[0] in ('psigradpsi', 'psi', 'gradpsi', 'gradL', 'prox') and nonfin.intersection(ev[1:])
-                           for ev in r['events'])
+    solver = op.get('solver', 'panoc')
     # "inside C up to rounding of the projection, a few ulps of the *operands*": x̂ = x + clamp(−γ∇ψ,
     # lb − x, ub − x), so the operands are the final iterate's x (final callback) and the bound.
     xs = r['cbs'][-1]['x'] if r['cbs'] else x
+    if not all(math.isfinite(a) for a in x + y + e):
+        # The finiteness clause presupposes finite problem functions (Props/C03 `x_out_finite_partial`).  Narrowly:
+        # (a) NaN injection: the harness made a ψ evaluation return NaN; (b) a problem function answered with a
+        # non-finite value at FINITE arguments at the final iterate x_k or at the returned point x̂_k (overflow
+        # inside the problem: not the solver's arithmetic).  Anything else — the solver's own step x̂ = x + p
+        # overflowed, or it kept iterating from a non-finite point — is the property violated on the real code.
+        cause = nonfinite_cause(op, r, x, xs)
+        bump('nonfinite_outputs_' + cause)
+        if cause in ('nan_injected', 'problem_function_nonfinite_at_finite_point'):
+            return None
+        bad = next(f'{nm}[{i}]={v[i]!r}' for nm, v in (('x', x), ('y', y), ('err_z', e)) for i in range(len(v))
+                   if not math.isfinite(v[i]))
+        return (f'returned {bad} is not finite (status {stx["status"]}, ε = {stx.get("eps")!r}; no NaN injection, every '
+                f'problem-function answer at the final iterate finite): {cause}',
+                f'C03-nonfinite-iterate-written-back:{solver}')
     for i in range(n):
-        if not math.isfinite(x[i]):
-            if oracle_nonfinite:
-                return None
-            return f'returned x[{i}]={x[i]!r} is not finite (status {stx["status"]})'
         lo, hi = ex.Clb[i], ex.Cub[i]
         mags = [abs(v) for v in (x[i], xs[i] if i < len(xs) else 0.0, lo, hi) if math.isfinite(v)]
         tolx = 4 * math.ulp(max(mags + [0.0]))
         if x[i] < lo - tolx or x[i] > hi + tolx:
             return f'returned x[{i}]={x[i]!r} outside C=[{lo},{hi}] (status {stx["status"]})'
-    if oracle_nonfinite:
-        return None
     if m:
         X = S.frv(x)
         gx = ex.g(X)
@@ -139,33 +169,112 @@ def monitor(op_line, out_line, st, parse=None):
     return None
 
 
+def ocp_box_monitor(op_line, out_line):
+    """PANOC-OCP: whenever the outputs were written — every exit status, always_overwrite_results included — the
+    returned inputs lie in U up to rounding of û = u + fmin(fmax(−γ∇ψ, lb − u), ub − u): 4 ulps of the operands
+    (the bound, the result, the final iterate's u).  (checks/c13.py tests this for Converged / finite Interrupted
+    exits only.)"""
+    import loop_ocp
+    import c13
+    if not out_line.startswith('S ') or out_line.startswith('S exception'):
+        return None
+    op = S.Op.parse(op_line)
+    r = loop_ocp.parse_out(out_line)
+    stx, o = r['stats'], r['out']
+    if not r['cbs']:
+        return None                                   # early NotFinite return: nothing written (c13 checks `untouched`)
+    wrote = stx['status'] in ('Converged', 'Interrupted') or op.nat('overwrite', 1) == 1
+    if not wrote:
+        return None
+    last = r['cbs'][-1]
+    nu = op.nat('nu')
+    lb, ub = op.vec('Ulb'), op.vec('Uub')
+    u = o['u']
+    if LM.bits(u) != LM.bits(last['uhat']):
+        return f'written-back inputs are not the û of the final iterate (status {stx["status"]})'
+    for j in range(len(u)):
+        # NaN / inf can reach û only through the operands of the projection step
+        if not math.isfinite(u[j]):
+            if all(math.isfinite(a) for a in (last['u'][j], last['grad_psi'][j], last['gamma'])):
+                return (f'returned u[{j}] = {u[j]!r} although u, ∇ψ, γ of the final iterate are finite '
+                        f'(status {stx["status"]})')
+            bump('ocp_box_skipped_nonfinite_operands')
+            continue
+        if not c13.in_box(u[j], lb[j % nu], ub[j % nu], last['u'][j]):
+            return (f'returned u[{j}] = {u[j]!r} outside U = [{lb[j % nu]}, {ub[j % nu]}] '
+                    f'(status {stx["status"]}, always_overwrite_results = {op.nat("overwrite", 1)})')
+    bump('ocp_box_checked_' + stx['status'])
+    return None
+
+
 def nontrivial(op_line, out_line):
     try:
         r = S.parse_out(out_line)
         if r['stats'].get('iterations', 0) >= 1 or r['stats']['status'] in ('Interrupted',):
-            return hash(op_line)
+            return zlib.crc32(op_line.encode())
     except Exception:
         return None
     return None
 
 
+# inputs kept from earlier failures, run first
+FISTA_CORPUS = [
+    # fixed step, f = c·x with |c| = 1e306: the momentum extrapolation overflows, MaxIter with x = [NaN]
+    # (known finding C03-nonfinite-iterate-written-back:fista)
+    'run solver=fista n=1 m=0 Q=1:0000000000000000 c=1:ff76c8e5ca239029 q4=1:0000000000000000 A=0: b=0: Clb=1:fff0000000000000 Cub=1:7ff0000000000000 Dlb=0: Dub=0: l1=0: x0=1:0000000000000000 y0=0: Sig=0: Lmin=3ff0000000000000 Lmax=3ff0000000000000 L0=4000000000000000 Lgf=3fee666666666666 tol=3e45798ee2308c3a crit=2 maxnp=10 overwrite=1 noacc=0 stopat=0 stopcb=0 nanat=0 oot=0 wmscratch=0 maxiter=35',
+]
+COVER = S.Coverage()
+
+
+def adapters():
+    """The registry of checks/multiloop.py with every parameter / tolerance class / Σ class varied (solvers.vary_all)
+    on top of each solver's own run generator."""
+    import multiloop
+    out = []
+    for s in multiloop.registry():
+        def gen(a, rng, n, exe, nsweep):
+            mod = getattr(a, 'mod', None)
+            ops = list(mod.corpus_ops()) if mod is not None and hasattr(mod, 'corpus_ops') else []
+            if a.name == 'fista':
+                ops += FISTA_CORPUS
+            for _ in range(n):
+                o = gen_run(rng, solver='panoc') if a.name == 'panoc' else mod.gen_run(rng)
+                ops.append(S.vary_all(rng, o, a.name).line())
+            if exe and nsweep:
+                ops += sweep_ops(rng, exe, nsweep, solver='panoc') if a.name == 'panoc' else mod.sweep_ops(rng, exe, nsweep)
+            return ops
+        out.append(LM.Adapter(s, gen))
+    return out
+
+
 def main(argv):
     import multiloop
+    sols = adapters()
 
     def mon(solver, o, h, st):
+        COVER.add(solver.name, o, h)
         if h.startswith('S exception'):
-            return None
+            return LM.c13_part(o, h, st) if solver.name == 'ocp' else None      # (multiloop reports other exceptions)
         if solver.name == 'ocp':
-            import loopmon                  # c13's monitor includes the C03 relations for every exit status
-            return loopmon.c13_part(o, h, st)   # (C13's own open finding is not a C03 matter)
+            # c13's monitor includes the C03 relations for every exit status (C13's own open finding: not C03's)
+            return LM.c13_part(o, h, st) or ocp_box_monitor(o, h)
         if solver.name == 'fista':
-            return monitor(o, h, st, parse=solver.mod.parse_out)
-        o2, h2 = solver.c03_view(o, h)
-        return monitor(o2, h2, st)
+            m = monitor(o, h, st, parse=solver.mod.parse_out)
+        else:
+            o2, h2 = solver.c03_view(o, h)
+            m = monitor(o2, h2, st)
+        # the written-back x̂, ŷ are those of the final callback: every callback's tuple is what it claims to be
+        return m or LM.iterate_consistency(solver.name, o, h, 'C03', bump)
+
+    def extra(rep, broken, tier):
+        LM.report_hung(rep, sols)
+        rep.cov['monitor_counts'] = dict(sorted(COUNTS.items()))
+        rep.note('monitor coverage: ' + ', '.join(f'{k}={v}' for k, v in sorted(COUNTS.items())))
+        COVER.report(rep, broken, tier, [s.name for s in sols if rep.cov.get('per_solver', {}).get(s.name, {}).get('runs')])
 
     return multiloop.loop_check(
-        'C03', argv, monitor=mon, nontrivial=nontrivial,
-        n_quick=450, n_thorough=6000, sweep_quick=2, sweep_thorough=20,
+        'C03', argv, monitor=mon, nontrivial=nontrivial, solvers=sols, extra_stage=extra,
+        n_quick=450, n_thorough=9000, sweep_quick=2, sweep_thorough=20,
         trusted_base=[
             'Lean 4.33 kernel + Mathlib (axioms: propext, Classical.choice, Quot.sound)',
             'translators gen_c05/gen_c06 (acceptance tests, status chain, stopping criteria)',
@@ -180,8 +289,12 @@ def main(argv):
         rule='per modelled solver: seeded random runs on polynomial problems (n≤4, m≤3, convex and nonconvex, '
              'mixed finite/infinite/equal bounds, optional ℓ1), all direction providers incl. adversarial '
              'ones, all 10 criteria, max_iter ∈ {0,1,2,3,5,20,60}, both overwrite settings, NaN injection, '
-             'stop() from evaluation k / callback j; plus exhaustive stop injection at every event index of '
-             'fixed runs; non-trivial = at least one iteration or interrupted; distinct by (solver, op line)',
+             'stop() from evaluation k / callback j; every solver parameter at non-default values (solvers.PARAM_SPACE: '
+             'β, Lγ, min / update line-search coefficients, Lipschitz-estimate steps, binding L_min / L_max, switches), '
+             'tolerance ∈ {>0, 0, <0, inf, NaN}, max_no_progress ∈ {0,1,2,10}, Σ / y not powers of two, starts that '
+             'reach NoProgress / NotFinite; plus exhaustive stop injection at every event index of fixed runs; required '
+             'coverage classes (solvers.required_classes) enforced in the thorough tier; non-trivial = at least one '
+             'iteration or interrupted; distinct by (solver, crc32 of the op line)',
     )
 
 
